@@ -25,6 +25,11 @@ var c19Programs = []string{
 	"def t {\n}\nbind t -> struct\nbind t -> struct\n",              // warning from the last line
 	"def a {\n def b {\n }\n var x = b\n var y = b\n f = 1001\n}\n", // block values in adjacent stack slots
 	"def a {\n def b {\n }\n var x = b\n eval x == b\n}\n",          // runtime error on block operands
+	// a runtime error raised by the last token of a line that is 2, 3, 4 lines above the end
+	"print 1001 / 1002\nprint \"f\"\nprint \"g\"\n",
+	"def b {\n  x = 1001/1002\n  y = 2\n}\n",
+	"def b {\n  x = 1001/1002\n  y = 2\n  z = 3\n}\nprint \"f\"\n",
+	"print \"a\"\n\n\nprint 1001 / 1002\n\n\n\nprint \"z\"\n",
 }
 
 // introspection lines: stack dumps, instruction lines, statistics, header
